@@ -30,7 +30,7 @@ ASSUMPTIONS = [
 ]
 
 START = ["complete", "complete", "complete", "failed", "raise", "hang", "return_early", "unknown"]
-STOP = ["complete", "complete", "failed", "raise", "hang", "return_early"]
+STOP = ["complete", "complete", "failed", "raise", "hang", "return_early", "complete_stay"]
 
 
 @st.composite
@@ -108,6 +108,9 @@ def lifespan_program(case: Dict[str, Any]) -> list:
     e = case["shutdown"]
     if e == "complete":
         prog.append(["send", {"type": "lifespan.shutdown.complete"}])
+    elif e == "complete_stay":
+        # an application that loops on receive(): still there after it has said complete
+        prog += [["send", {"type": "lifespan.shutdown.complete"}], ["recv"]]
     elif e == "failed":
         prog.append(["send_in_group" if case.get("in_group") else "send",
                      _failed("lifespan.shutdown.failed", case)])
